@@ -141,9 +141,15 @@ impl Check for C02 {
         tier.pick(std::time::Duration::from_secs(200), std::time::Duration::from_secs(1500))
     }
     fn required_counters(&self, _tier: Tier) -> Vec<&'static str> {
-        vec!["restarts", "torn-variants", "every-prefix-cases", "must-serve-keys", "must-be-absent-keys", "full-store-restarts", "root-used-before-by-another-network-version", "largest-record-restarts"]
+        vec!["restarts", "torn-variants", "every-prefix-cases", "must-serve-keys", "must-be-absent-keys", "full-store-restarts", "root-used-before-by-another-network-version", "largest-record-restarts", "realnet:nodes-restarted"]
+    }
+    fn lane_cases(&self, tier: Tier) -> u64 {
+        tier.pick(8, 64)
     }
     fn run_case(&self, cx: &mut Cx) {
+        if cx.index >= LANE_BASE {
+            return crate::realcases::c02_case(cx);
+        }
         // the store's capacity is a constant of the shipped build (not configurable at construction), so
         // "full at the moment of the restart" is exercised at its real size: cases 0 and 1 of every run
         if cx.index < 2 {
